@@ -1049,3 +1049,41 @@ pub fn gen_f32_fma_sensitive(r: &mut Rng) -> Inst {
         .collect();
     Inst { courses, parts, rooms: Some(vec![room, np + 3]) }
 }
+
+/// Room branching at its size limits: (a) 17–22 courses that ALL conflict with the rooms at once
+/// (every course has three fans, every room two places): the candidate range reaches `MAX_N`, the
+/// selection is "all of them" (n = k); (b) a wide selection: a few small, many middle and several large
+/// courses over rooms of two sizes, so that `k0 ≥ MIN_K` with at least five larger courses above.
+pub fn gen_room_branching_limits(r: &mut Rng) -> Inst {
+    let all_conflict = r.chance(1, 2);
+    let sizes: Vec<usize> = if all_conflict {
+        vec![3; 17 + r.usize(6)]
+    } else {
+        let mut v = vec![1; 2 + r.usize(3)];
+        v.extend(vec![3; 8 + r.usize(4)]);
+        v.extend(vec![5; 6 + r.usize(4)]);
+        v
+    };
+    let nc = sizes.len();
+    let courses: Vec<CourseDump> = (0..nc)
+        .map(|i| CourseDump { index: i, dbid: 100 + i, name: format!("c{}", i), num_min: if r.chance(1, 4) { 1 } else { 0 }, num_max: sizes[i] + 1, instructors: vec![],
+            room_factor: 1.0, room_offset: 0.0, fixed_course: false, hidden_participant_names: vec![] })
+        .collect();
+    let mut parts: Vec<ParticipantDump> = vec![];
+    for c in 0..nc {
+        for _ in 0..sizes[c] {
+            let i = parts.len();
+            let other = (c + 1 + r.usize(nc - 1)) % nc;
+            parts.push(ParticipantDump { index: i, dbid: 1000 + i, name: format!("p{}", i), choices: vec![(c, 0), (other, 1 + r.below(3) as u32)] });
+        }
+    }
+    let rooms: Vec<usize> = if all_conflict {
+        vec![2; nc]
+    } else {
+        let big = sizes.iter().filter(|s| **s >= 5).count();
+        let mut v = vec![9; big];
+        v.extend(vec![2; nc - big]);
+        v
+    };
+    Inst { courses, parts, rooms: Some(rooms) }
+}
